@@ -128,6 +128,7 @@ pub fn run_sequence_isolated(engine: &dyn Engine, seed: u64, cases: &[u64], tier
                 let mut last = Vec::new();
                 for (i, c) in cases.iter().enumerate() {
                     let mut acc = Acc::default();
+                    crate::build::case_arena_clear();
                     engine.run_case(seed, *c, tier, &mut acc);
                     if i + 1 == cases.len() {
                         last = acc.violations;
@@ -222,6 +223,7 @@ pub fn run_threads(engine: &dyn Engine, seed: u64, tier: &str, first: u64, count
                             let _ = f.write_all_at(&idx.to_le_bytes(), 8 * t as u64);
                         }
                         let nv = acc.violations.len();
+                        crate::build::case_arena_clear();
                         let d = engine.run_case(seed, idx, tier, &mut acc);
                         ran.fetch_add(1, Ordering::Relaxed);
                         digests.push((idx, d));
@@ -240,6 +242,7 @@ pub fn run_threads(engine: &dyn Engine, seed: u64, tier: &str, first: u64, count
                         // in-run determinism guard: re-execute ~1% of the cases and compare digests
                         if crate::prng::mix64(idx ^ 0xD17E) % 100 == 0 {
                             let mut scratch = Acc::default();
+                            crate::build::case_arena_clear();
                             let d2 = engine.run_case(seed, idx, tier, &mut scratch);
                             if d2 != d {
                                 nondet.lock().unwrap().push(idx);
